@@ -305,6 +305,10 @@ def run(prog, rep):
 
     # ---------------------------------------------------------------- LOOP-1
     loop_carried_state(prog, rep, [pt], "LOOP-1")
+    from ..report import import_verdicts
+    import_verdicts(prog, rep, "C07", ("DOM-5",), "GATE-1",
+                    "`a document that cannot be represented makes the writer raise`: the refusal of documents with validation errors sits in "
+                    "ODMLWriter.write_file and has to look at every error of the validation (validation.errors), not at the errors of one object")
     csv_options_rule(prog, rep, "CSV-2")
 
     # ----------------------------------------------------------------- ORD-3
